@@ -1,86 +1,139 @@
 #!/usr/bin/env python3
-"""tools/seedtest.py <seed-id> <property> <patch> <demo> [--tests tests/x_test.py ...] [--needs "..."]
-Confirms a seeded change in a scratch worktree (demo passes without / fails with; relevant tests same with and
-without), stores it under seeded/<seed-id>/, then applies it to /repo, runs ./check <property> (quick), reverts,
-and records the outcome in meta.json."""
+"""tools/seedtest.py <seed-id> <property> --from <dir with patch.diff, demo.py[, notes.json]> [--tier quick|thorough] [--also Cyy ...]
+   tools/seedtest.py <seed-id> <property> --recheck          (seed already stored: only re-run the checks against it)
+
+1. confirms the seeded change in a scratch worktree of /repo HEAD (outside /repo and /verif): demo exits 0 without the
+   patch and non-zero with it; the repository's whole test suite gives the same PASSED set with the patch as the baseline
+   (tools/runtests.sh; baseline cached in /root/work/baseline_tests.txt, regenerated when /repo HEAD changes);
+2. stores it as seeded/<seed-id>/{patch.diff, demo.py, meta.json};
+3. applies it to /repo, runs ./check <property> (and --also ...), reverts (`git checkout -- .`), records what was reported."""
 import argparse
 import json
 import os
 import shutil
 import subprocess
-import sys
 import tempfile
 
 VERIF = os.path.dirname(os.path.dirname(os.path.abspath(__file__)))
 PY = "/venv/bin/python"
+BASE = "/root/work/baseline_tests.txt"
 
 
-def sh(cmd, cwd=None, env=None, timeout=3600):
+def sh(cmd, cwd=None, env=None, timeout=7200):
     p = subprocess.run(cmd, shell=True, cwd=cwd, env=env, capture_output=True, text=True, timeout=timeout)
     return p.returncode, (p.stdout + p.stderr)
 
 
+def head():
+    return sh("git -C /repo rev-parse HEAD")[1].strip()
+
+
+def baseline(wt):
+    tag = BASE + ".head"
+    if os.path.exists(BASE) and os.path.exists(tag) and open(tag).read().strip() == head() and os.path.getsize(BASE) > 0:
+        return open(BASE).read()
+    rc, out = sh(f"{VERIF}/tools/runtests.sh {wt}")
+    os.makedirs(os.path.dirname(BASE), exist_ok=True)
+    open(BASE, "w").write(out)
+    open(tag, "w").write(head())
+    return out
+
+
+def passed(txt):
+    return sorted(l.split(" ", 1)[1].strip() for l in txt.splitlines() if l.startswith("PASSED "))
+
+
+def run_checks(dest, props, tier):
+    rc, out = sh("git -C /repo status --porcelain --untracked-files=no")
+    assert out.strip() == "", "/repo not clean: " + out
+    rc, out = sh(f"git -C /repo apply {dest}/patch.diff")
+    assert rc == 0, "patch does not apply to /repo: " + out
+    res = []
+    try:
+        for p in props:
+            rcc, oc = sh(f"./check {p} --tier {tier}", cwd=VERIF, timeout=7200)
+            lines = [l for l in oc.splitlines() if l.startswith("VIOLATION") or l.startswith("  ->") or l.startswith("KNOWN") or l.startswith("INFRA")]
+            rp = None
+            for l in lines:
+                if l.startswith("VIOLATION") and "replay=" in l:
+                    rp = l.split("replay=")[1].split()[0]
+                    break
+            rep = None
+            if rp and os.path.exists(os.path.join(VERIF, rp)):
+                r1, o1 = sh(f"./check {p} --replay {rp}", cwd=VERIF, timeout=1800)
+                rep = {"on_mutant_rc": r1, "tail": o1.strip().splitlines()[-1:] }
+            res.append({"cmd": f"./check {p} --tier {tier}", "rc": rcc, "lines": lines[:8], "replay": rp, "replay_on_mutant": rep,
+                        "caught": rcc == 1 and any(l.startswith("VIOLATION") for l in lines),
+                        "with_failing_input": any(l.startswith("VIOLATION") and "no-failing-input-found" not in l for l in lines)})
+    finally:
+        sh("git -C /repo checkout -- .")
+    # replay on the clean tree must NOT reproduce
+    for r in res:
+        if r["replay"] and os.path.exists(os.path.join(VERIF, r["replay"])):
+            p = r["cmd"].split()[1]
+            r0, o0 = sh(f"./check {p} --replay {r['replay']}", cwd=VERIF, timeout=1800)
+            r["replay_on_clean_rc"] = r0
+    return res
+
+
 def main():
     ap = argparse.ArgumentParser()
-    ap.add_argument("seed_id"); ap.add_argument("prop"); ap.add_argument("patch"); ap.add_argument("demo")
-    ap.add_argument("--tests", nargs="*", default=[])
-    ap.add_argument("--needs", default="")
+    ap.add_argument("seed_id"); ap.add_argument("prop")
+    ap.add_argument("--from", dest="src")
+    ap.add_argument("--recheck", action="store_true")
     ap.add_argument("--tier", default="quick")
-    ap.add_argument("--skip-confirm", action="store_true")
+    ap.add_argument("--also", nargs="*", default=[])
+    ap.add_argument("--skip-suite", action="store_true")
     a = ap.parse_args()
     dest = os.path.join(VERIF, "seeded", a.seed_id)
-    os.makedirs(dest, exist_ok=True)
-    if os.path.abspath(a.patch) != os.path.join(dest, "patch.diff"):
-        shutil.copy(a.patch, os.path.join(dest, "patch.diff"))
-    demo_name = "demo.py"
-    if os.path.abspath(a.demo) != os.path.join(dest, demo_name):
-        shutil.copy(a.demo, os.path.join(dest, demo_name))
-    meta = {"seed_id": a.seed_id, "property": a.prop, "needs": a.needs, "ran": []}
     mp = os.path.join(dest, "meta.json")
-    if a.skip_confirm and os.path.exists(mp):
+    if a.recheck:
         meta = json.load(open(mp))
-    wt = tempfile.mkdtemp(prefix="seedwt-", dir="/tmp")
-    os.rmdir(wt)
-    try:
-        rc, out = sh(f"git -C /repo worktree add -q --detach {wt} HEAD")
-        assert rc == 0, out
-        env = dict(os.environ, PYTHONPATH=wt)
-        if not a.skip_confirm:
-            rc0, o0 = sh(f"{PY} {dest}/{demo_name}", cwd=wt, env=env)
-            meta["ran"].append({"cmd": "demo on clean tree", "rc": rc0, "tail": o0[-300:]})
-            t0 = None
-            if a.tests:
-                t0, to0 = sh(f"{PY} -m pytest -q -p no:cacheprovider {' '.join(a.tests)} 2>&1 | tail -3", cwd=wt, env=env)
-                meta["ran"].append({"cmd": "tests on clean tree: " + " ".join(a.tests), "tail": to0[-300:]})
+    else:
+        os.makedirs(dest, exist_ok=True)
+        for fn in ("patch.diff", "demo.py"):
+            shutil.copy(os.path.join(a.src, fn), os.path.join(dest, fn))
+        notes = {}
+        if os.path.exists(os.path.join(a.src, "notes.json")):
+            try:
+                notes = json.load(open(os.path.join(a.src, "notes.json")))
+            except Exception:
+                notes = {"raw": open(os.path.join(a.src, "notes.json")).read()[:2000]}
+        meta = {"seed_id": a.seed_id, "property": a.prop, "summary": notes.get("summary", ""), "needs": notes.get("needs", ""),
+                "author": "independent sub-agent given only the property text and a scratch worktree", "repo_head": head(), "ran": []}
+        wt = tempfile.mkdtemp(prefix="seedchk-", dir="/tmp")
+        os.rmdir(wt)
+        try:
+            rc, out = sh(f"git -C /repo worktree add -q --detach {wt} HEAD")
+            assert rc == 0, out
+            env = dict(os.environ, PYTHONPATH=wt)
+            rc0, o0 = sh(f"{PY} {dest}/demo.py", cwd=wt, env=env)
+            meta["ran"].append({"cmd": "demo on unchanged tree", "rc": rc0, "tail": o0[-300:]})
+            base = None if a.skip_suite else baseline(wt)
             rc, out = sh(f"git apply {dest}/patch.diff", cwd=wt)
             assert rc == 0, "patch does not apply: " + out
-            rc1, o1 = sh(f"{PY} {dest}/{demo_name}", cwd=wt, env=env)
-            meta["ran"].append({"cmd": "demo with patch", "rc": rc1, "tail": o1[-300:]})
-            if a.tests:
-                t1, to1 = sh(f"{PY} -m pytest -q -p no:cacheprovider {' '.join(a.tests)} 2>&1 | tail -3", cwd=wt, env=env)
-                meta["ran"].append({"cmd": "tests with patch", "tail": to1[-300:]})
-                meta["tests_same"] = (to0.strip().splitlines()[-1:] == to1.strip().splitlines()[-1:]) or \
-                    (to0.split(" in ")[0].split("\n")[-1] == to1.split(" in ")[0].split("\n")[-1])
+            rc1, o1 = sh(f"{PY} {dest}/demo.py", cwd=wt, env=env)
+            meta["ran"].append({"cmd": "demo with patch", "rc": rc1, "tail": o1[-400:]})
+            if not a.skip_suite:
+                rc, out = sh(f"{VERIF}/tools/runtests.sh {wt}")
+                pb, pp = passed(base), passed(out)
+                meta["suite"] = {"cmd": "tools/runtests.sh <worktree> (whole suite)", "baseline_passed": len(pb), "patched_passed": len(pp),
+                                 "lost": sorted(set(pb) - set(pp))}
+                meta["tests_same"] = set(pb) <= set(pp)
             meta["confirmed"] = (rc0 == 0 and rc1 != 0)
-        # now against our checks
-        rc, out = sh("git -C /repo status --porcelain --untracked-files=no")
-        assert out.strip() == "", "/repo not clean: " + out
-        rc, out = sh(f"git -C /repo apply {dest}/patch.diff")
-        assert rc == 0, out
-        try:
-            rcc, oc = sh(f"./check {a.prop} --tier {a.tier}", cwd=VERIF, timeout=3000)
         finally:
-            sh("git -C /repo checkout -- .")
-        lines = [l for l in oc.splitlines() if l.startswith("VIOLATION") or l.startswith("  ->") or l.startswith("KNOWN")]
-        meta["check"] = {"cmd": f"./check {a.prop} --tier {a.tier}", "rc": rcc, "lines": lines[:8]}
-        meta["caught"] = rcc == 1 and any(l.startswith("VIOLATION") for l in lines)
-        meta["with_failing_input"] = any(l.startswith("VIOLATION") and "no-failing-input-found" not in l for l in lines)
-    finally:
-        sh(f"git -C /repo worktree remove --force {wt}")
-        shutil.rmtree(wt, ignore_errors=True)
-    with open(os.path.join(dest, "meta.json"), "w") as f:
+            sh(f"git -C /repo worktree remove --force {wt}")
+            shutil.rmtree(wt, ignore_errors=True)
+    if meta.get("confirmed") and meta.get("tests_same", True):
+        meta["checks"] = run_checks(dest, [a.prop] + a.also, a.tier)
+        meta["caught"] = any(c["caught"] for c in meta["checks"])
+        meta["with_failing_input"] = any(c["with_failing_input"] for c in meta["checks"])
+    with open(mp, "w") as f:
         json.dump(meta, f, indent=1)
-    print(json.dumps({k: meta.get(k) for k in ("seed_id", "confirmed", "tests_same", "caught", "with_failing_input")}), "\n", "\n".join(meta["check"]["lines"]))
+    print(json.dumps({k: meta.get(k) for k in ("seed_id", "confirmed", "tests_same", "caught", "with_failing_input")}))
+    for c in meta.get("checks", []):
+        print(c["cmd"], "rc", c["rc"], "replay_on_mutant", c.get("replay_on_mutant"), "replay_on_clean_rc", c.get("replay_on_clean_rc"))
+        print("\n".join(c["lines"]))
 
 
 if __name__ == "__main__":
